@@ -22,6 +22,8 @@ pub enum Ty {
     IterSt,  // Iter: the cursor `node`
     DeSt,    // DoubleEndedIter: (head, tail)
     TravSt,  // Traverse / ReverseTraverse: (root, next)
+    Addr,    // a machine address / a usize obtained from one (Z)
+    AddrRange, // Range<*const Node<T>>: (start, end)
     Never,
     Unknown,
 }
@@ -50,6 +52,8 @@ impl Ty {
             Ty::IterSt => "(option nid)".into(),
             Ty::DeSt => "(option nid * option nid)%type".into(),
             Ty::TravSt => "(nid * option edge)%type".into(),
+            Ty::Addr => "Z".into(),
+            Ty::AddrRange => "(Z * Z)%type".into(),
             Ty::Never => "unit".into(),
             Ty::Unknown => "unsupported".into(),
         }
